@@ -1,3 +1,4 @@
 import PflDrv.Json
 import PflDrv.FA
 import PflDrv.CFG
+import PflDrv.PDA
